@@ -128,7 +128,7 @@ def run(tier, seed):
     run = engine.Run("C14", tier, seed)
     work = engine.workdir("C14")
     try:
-        res = engine.run_tlc(work, "MC_C14", constants={}, invariants=["OneShape", "DisplayLaw"])
+        res = engine.run_tlc(work, "MC_C14", constants={}, invariants=["OneShape", "DisplayLaw", "UseCurrentLaw"])
         run.add_tlc(res, "DocPaint cascade cases")
         n = 0
         bykind = {}
